@@ -289,7 +289,7 @@ theorem reindex_zip {β γ : Type} (xs : List β) (ys : List γ) (hlen : xs.leng
     have ih := reindex_zip xs ys hlen σ (fun j hj => h j (by simp [hj]))
     unfold reindex at ih ⊢
     have hi' : i < ys.length := hlen ▸ hi
-    have hz : i < (xs.zip ys).length := by simp [List.length_zip, hi, hi']
+    have hz : i < (xs.zip ys).length := by rw [List.length_zip]; omega
     simp only [List.filterMap_cons, List.getElem?_eq_getElem hi, List.getElem?_eq_getElem hi',
       List.getElem?_eq_getElem hz, ih, List.zip_cons_cons, List.getElem_zip]
 
@@ -308,11 +308,150 @@ theorem transformToNormal_reindex (m : GModel L) (ls : List L) (rows : List (Lis
   apply reindex_perm
   rwa [List.length_zip, ← hl, Nat.min_self]
 
+theorem zip_map_fst_map_snd {β γ : Type} : ∀ l : List (β × γ), (l.map (·.1)).zip (l.map (·.2)) = l
+  | [] => rfl
+  | _ :: l => by simp [zip_map_fst_map_snd l]
+
+/-- deleting the columns whose label is not a training column does not change label lookup. -/
 theorem pick_filter_cols (m : GModel L) (ls : List L) (r : List α) {l : L} (hl : l ∈ m.cols) :
     pick (((ls.zip r).filter fun c => decide (c.1 ∈ m.cols)).map (·.1)) l
         (((ls.zip r).filter fun c => decide (c.1 ∈ m.cols)).map (·.2)) = pick ls l r := by
   unfold pick
-  rw [List.zip_map_fst_snd?]
-  sorry
+  rw [zip_map_fst_map_snd, List.filter_filter]
+  congr 1
+  apply List.filter_congr
+  intro c _
+  by_cases h : c.1 = l
+  · simp [h, hl]
+  · simp [h]
+
+theorem filter_zip_map_fst {β γ : Type} (p : β → Bool) :
+    ∀ (ls : List β) (r : List γ), ls.length ≤ r.length →
+      ((ls.zip r).filter fun c => p c.1).map (·.1) = ls.filter p
+  | [], _, _ => by simp
+  | _ :: _, [], h => by simp at h
+  | a :: ls, b :: r, h => by
+    have ih := filter_zip_map_fst p ls r (by simpa using h)
+    by_cases ha : p a <;> simp [ha, ih]
+
+/-- the frame with the non-training columns deleted. -/
+def dropExtra (m : GModel L) (ls : List L) (rows : List (List α)) : Container L α :=
+  .frame (ls.filter fun l => decide (l ∈ m.cols))
+    (rows.map fun r => ((ls.zip r).filter fun c => decide (c.1 ∈ m.cols)).map (·.2))
+
+/-- **Extra columns are ignored**: the plan of a (rectangular) frame equals the plan of the frame with
+    every column whose label is not a training column deleted. -/
+theorem transformToNormal_dropExtra (m : GModel L) (ls : List L) (rows : List (List α))
+    (hrect : ∀ r ∈ rows, r.length = ls.length) :
+    transformToNormal m (dropExtra m ls rows) = transformToNormal m (.frame ls rows) := by
+  unfold dropExtra
+  apply transformToNormal_frame_congr
+  · intro l hl; simp [hl]
+  · intro l hl
+    rw [List.filter_filter]
+    congr 1
+    apply List.filter_congr
+    intro l' _
+    by_cases h : l' = l
+    · simp [h, hl]
+    · simp [h]
+  · rw [List.forall₂_map_left_iff]
+    apply List.forall₂_same.mpr
+    intro r hr l hl
+    rw [← filter_zip_map_fst (fun l => decide (l ∈ m.cols)) ls r (Nat.le_of_eq (hrect r hr).symm)]
+    exact pick_filter_cols m ls r hl
+
+/-! ### the well-formed case: distinct labels containing every training column -/
+
+theorem foldl_add_ones {β : Type} (f : β → Nat) : ∀ (xs : List β) (a : Nat), (∀ x ∈ xs, f x = 1) →
+    (xs.map f).foldl (· + ·) a = a + xs.length
+  | [], a, _ => by simp
+  | x :: xs, a, h => by
+    have hx : f x = 1 := h x (by simp)
+    have := foldl_add_ones f xs (a + 1) (fun y hy => h y (by simp [hy]))
+    simp only [List.map_cons, List.foldl_cons, hx, this, List.length_cons]
+    omega
+
+theorem count_label_eq_one {ls : List L} (hnd : ls.Nodup) {l : L} (hl : l ∈ ls) :
+    (ls.filter fun l' => decide (l' = l)).length = 1 := by
+  have h1 : (ls.filter fun l' => decide (l' = l)).length ≤ 1 :=
+    length_le_one_of_nodup_const (l := l) (hnd.sublist List.filter_sublist)
+      (fun x hx => by simpa using (List.mem_filter.mp hx).2)
+  have h2 : l ∈ ls.filter fun l' => decide (l' = l) := List.mem_filter.mpr ⟨hl, by simp⟩
+  have := List.length_pos_of_mem h2
+  omega
+
+theorem planWidth_eq (m : GModel L) {ls : List L} (hnd : ls.Nodup) (hall : ∀ l ∈ m.cols, l ∈ ls) :
+    planWidth m ls = m.cols.length := by
+  unfold planWidth
+  have hf : ((m.cols.zip (List.range m.cols.length)).filter fun cu => decide (cu.1 ∈ ls))
+      = m.cols.zip (List.range m.cols.length) := by
+    rw [List.filter_eq_self]
+    intro cu hcu
+    simpa using hall cu.1 (List.of_mem_zip hcu).1
+  rw [hf, foldl_add_ones _ _ 0 (fun cu hcu => count_label_eq_one hnd (hall cu.1 (List.of_mem_zip hcu).1))]
+  simp
+
+theorem anyPresent_of_all (m : GModel L) {ls : List L} (hne : m.cols ≠ []) (hall : ∀ l ∈ m.cols, l ∈ ls) :
+    anyPresent m ls = true := by
+  unfold anyPresent
+  obtain ⟨l, hl⟩ := List.exists_mem_of_ne_nil _ hne
+  exact List.any_eq_true.mpr ⟨l, hl, by simpa using hall l hl⟩
+
+/-! ### the density methods on a frame -/
+
+/-- the row handed to `MVNPDF` (numpy broadcasting of a one-column score matrix). -/
+def shapeRow {β : Type} (d w : Nat) (row : List β) : List β :=
+  if w = d then row else row.flatMap fun t => List.replicate d t
+
+theorem pdfPlan_frame (m : GModel L) (ls : List L) (rows : List (List α)) :
+    pdfPlan m (.frame ls rows) =
+      if !m.fitted then .error .notFitted
+      else if !anyPresent m ls then .error .valueError
+      else if planWidth m ls = m.corr.dim ∨ planWidth m ls = 1 then
+        .ok (rows.map fun r => RTerm.mvnpdf true (shapeRow m.corr.dim (planWidth m ls) (rowPlan m ls r)))
+      else .error .valueError := by
+  unfold pdfPlan Gen.GaussTransform.probabilityDensity
+  rw [transformToNormal_frame]
+  cases hf : m.fitted <;> cases ha : anyPresent m ls <;>
+    simp [checkFit, hf, bind, Except.bind, mvnPdfBatch, shapeRow]
+  by_cases h1 : planWidth m ls = m.corr.dim
+  · simp [h1]
+  · by_cases h2 : planWidth m ls = 1
+    · simp [h1, h2]
+    · simp [h1, h2]
+
+theorem cdfPlan_frame (m : GModel L) (ls : List L) (rows : List (List α)) :
+    cdfPlan m (.frame ls rows) =
+      if !m.fitted then .error .notFitted
+      else if !anyPresent m ls then .error .valueError
+      else if m.corr.singular && !Gen.GaussTransform.cdfAllowSingular then .error .valueError
+      else if planWidth m ls = m.corr.dim ∧ rows ≠ [] then
+        .ok (rows.map fun r => RTerm.mvncdf Gen.GaussTransform.cdfAllowSingular (rowPlan m ls r))
+      else .error .valueError := by
+  unfold cdfPlan Gen.GaussTransform.cumulativeDistribution
+  rw [transformToNormal_frame]
+  cases hf : m.fitted <;> cases ha : anyPresent m ls <;>
+    simp [checkFit, hf, bind, Except.bind, mvnCdfBatch]
+  by_cases hs : (m.corr.singular && !Gen.GaussTransform.cdfAllowSingular) = true
+  · simp [hs]
+  · by_cases h1 : planWidth m ls = m.corr.dim
+    · cases rows <;> simp [hs, h1]
+    · simp [hs, h1]
+
+theorem logPdfPlan_eq (m : GModel L) (x : Container L α) :
+    logPdfPlan m x = (pdfPlan m x).map fun ys => ys.map RTerm.log := by
+  unfold logPdfPlan Gen.GaussTransform.logProbabilityDensity
+  cases pdfPlan m x <;> rfl
+
+/-- the three density methods see `X` only through `_transform_to_normal(X)`. -/
+theorem densities_congr (m : GModel L) {x y : Container L α}
+    (h : transformToNormal m x = transformToNormal m y) :
+    pdfPlan m x = pdfPlan m y ∧ cdfPlan m x = cdfPlan m y ∧ logPdfPlan m x = logPdfPlan m y := by
+  have hp : pdfPlan m x = pdfPlan m y := by
+    unfold pdfPlan Gen.GaussTransform.probabilityDensity; rw [h]
+  refine ⟨hp, ?_, ?_⟩
+  · unfold cdfPlan Gen.GaussTransform.cumulativeDistribution; rw [h]
+  · rw [logPdfPlan_eq, logPdfPlan_eq, hp]
 end
 end CopVerif.Model.GaussTransform
